@@ -166,6 +166,10 @@ class IsoDepInitiator(object):
                     raise Type4TagCommandError(nfc.tag.PROTOCOL_ERROR)
 
         while bool(data[0] & 0b00010000):
+            if len(data) == 1 or len(response) > 65538:
+                log.error("ISO-DEP protocol error: response chaining")
+                raise Type4TagCommandError(nfc.tag.PROTOCOL_ERROR)
+
             data = pack('B', 0xA2 | self.pni)  # ACK
 
             for i in itertools.count(start=1):  # pragma: no branch
